@@ -115,7 +115,7 @@ def cache_key_shape(tree):
 MODELLED = {
     # rel path : functions mirrored by a Lean model (fingerprinted so that an edit is visible in evidence
     # and deepens the correspondence run for the properties that depend on it)
-    'lark/utils.py': ['small_factors', 'TextSlice.__post_init__', 'Serialize.serialize', 'Serialize.deserialize', '_serialize', '_deserialize'],
+    'lark/utils.py': ['small_factors', 'TextSlice.__post_init__', 'Serialize.serialize', 'Serialize.deserialize', '_serialize', '_deserialize', 'Enumerator.get', 'Enumerator.reversed'],
     'lark/load_grammar.py': ['EBNF_to_BNF._add_repeat_rule', 'EBNF_to_BNF._add_repeat_opt_rule', 'EBNF_to_BNF._generate_repeats', 'EBNF_to_BNF.expr',
                              'GrammarBuilder.do_import', '_get_mangle', '_mangle_definition_tree', 'GrammarBuilder._extend', 'GrammarBuilder._define', 'SimplifyRule_Visitor.expansion',
                              'EBNF_to_BNF._add_rule', 'EBNF_to_BNF._add_recurse_rule', 'EBNF_to_BNF.maybe', 'FindRuleSize._will_not_get_removed', 'FindRuleSize._args_as_int', 'FindRuleSize.expansion', 'FindRuleSize.expansions'],
@@ -125,7 +125,7 @@ MODELLED = {
     'lark/parsers/xearley.py': ['Parser._parse'],
     'lark/parsers/earley_forest.py': ['PackedNode.sort_key', 'PackedNode.__eq__', 'PackedNode.__init__', 'SymbolNode.add_family', 'SymbolNode.is_ambiguous', 'ForestToParseTree.on_cycle', 'TreeForestTransformer._call_rule_func', 'ForestSumVisitor.visit_packed_node_out', 'ForestSumVisitor.visit_symbol_node_out', 'ForestVisitor.visit', 'ForestToParseTree.visit_packed_node_in'],
     'lark/parsers/grammar_analysis.py': ['calculate_sets', 'GrammarAnalyzer.expand_rule'],
-    'lark/parsers/lalr_analysis.py': ['digraph', 'traverse', 'LALR_Analyzer.compute_lr0_states', 'LALR_Analyzer.compute_reads_relations', 'LALR_Analyzer.compute_includes_lookback',
+    'lark/parsers/lalr_analysis.py': ['ParseTableBase.serialize', 'ParseTableBase.deserialize', 'digraph', 'traverse', 'LALR_Analyzer.compute_lr0_states', 'LALR_Analyzer.compute_reads_relations', 'LALR_Analyzer.compute_includes_lookback',
                                       'LALR_Analyzer.compute_lookaheads', 'LALR_Analyzer.compute_lalr1_states'],
     'lark/parsers/lalr_parser_state.py': ['ParserState.feed_token', 'ParserState.copy'],
     'lark/parsers/lalr_interactive_parser.py': ['InteractiveParser.accepts', 'InteractiveParser.copy', 'InteractiveParser.as_immutable'],
